@@ -2,6 +2,7 @@
 
 use super::common::*;
 use crate::choices::{fnv, Choices};
+use crate::dynserde;
 use crate::json::Js;
 use crate::refbin::{self, DecErr, Layout, LayoutStats};
 use crate::runner::*;
@@ -92,6 +93,65 @@ pub fn case_reverse(c: &mut Choices, log: &mut CaseLog) -> CaseResult {
         return Err(Fail::new("C02/reverse-consumption", format!("{} bytes left, expected {}", slice.len(), tail.len()))
             .with(detail(&sub, &v, vec![("bytes", bytes_js(&bytes))])));
     }
+    // the same bytes through the schema-aware deserializer
+    let option_style = c.bool();
+    let mut slice: &[u8] = &data;
+    let got = dynserde::with_ctx(&sub.node, &sub.env, option_style, || reader.read_deser::<dynserde::DynOut>(&mut slice)).map_err(|e| {
+        Fail::new("C02/reverse-deser-rejected", format!("schema-aware deserializer rejects a spec-legal encoding: {e}"))
+            .with(detail(&sub, &v, vec![("bytes", bytes_js(&bytes))]))
+    })?;
+    if !got.0.sem_eq(&v) {
+        return Err(Fail::new("C02/reverse-deser-mismatch", "schema-aware deserializer reads a different value from a spec-legal encoding")
+            .with(detail(&sub, &v, vec![("bytes", bytes_js(&bytes)), ("got", Js::Str(got.0.to_js().render()))])));
+    }
+    if slice != &tail[..] {
+        return Err(Fail::new("C02/reverse-deser-consumption", format!("{} bytes left, expected {}", slice.len(), tail.len()))
+            .with(detail(&sub, &v, vec![("bytes", bytes_js(&bytes))])));
+    }
+    Ok(())
+}
+
+/// schema-aware serializer (direct and buffered blocks) -> reference decoder
+pub fn case_serde_writer(c: &mut Choices, log: &mut CaseLog) -> CaseResult {
+    let Some(sub) = gen_subject(c, &SgenCfg::full(), log)? else {
+        return Ok(());
+    };
+    let v = vgen::gen_value(c, &sub.node, &sub.env);
+    let tbs = [None, Some(0usize), Some(1), Some(16), Some(4096)][c.pick(5)];
+    let plan = dynserde::SerPlan { seed: if c.bool() { 0 } else { c.raw() | 1 } };
+    log.label("case");
+    log.label(&format!("block_size:{tbs:?}"));
+    if plan.seed != 0 {
+        log.label("varied_calls");
+    }
+    log.nontrivial = vgen::nontrivial(&sub.node, &v, &sub.env);
+    log.hash = fnv(format!("S|{}|{:?}|{:?}|{}", sub.text, v, tbs, plan.seed).as_bytes());
+    log.sample = Some(describe(&sub.text, &v));
+    let w = GenericDatumWriter::builder(&sub.schema)
+        .maybe_target_block_size(tbs)
+        .build()
+        .map_err(|e| Fail::new("C02/writer-build", format!("{e}")))?;
+    let mut bytes = vec![];
+    w.write_ser(&mut bytes, &dynserde::DynSer::new(&sub.node, &v, &sub.env, plan)).map_err(|e| {
+        Fail::new("C02/serde-encode-error", format!("schema-aware serializer refuses a conforming value: {e}"))
+            .with(detail(&sub, &v, vec![("target_block_size", Js::Str(format!("{tbs:?}"))), ("plan", Js::int(plan.seed as i128))]))
+    })?;
+    match refbin::decode(&sub.node, &sub.env, &bytes) {
+        Ok((got, used)) => {
+            if !got.sem_eq(&v) {
+                return Err(Fail::new("C02/serde-forward-mismatch", "reference decoder reads a different value from the serializer's bytes")
+                    .with(detail(&sub, &v, vec![("bytes", bytes_js(&bytes)), ("reference_got", Js::Str(got.to_js().render())), ("target_block_size", Js::Str(format!("{tbs:?}")))])));
+            }
+            if used != bytes.len() {
+                return Err(Fail::new("C02/serde-forward-trailing", format!("reference decoder consumed {used} of {} bytes", bytes.len()))
+                    .with(detail(&sub, &v, vec![("bytes", bytes_js(&bytes))])));
+            }
+        }
+        Err(e) => {
+            return Err(Fail::new("C02/serde-forward-undecodable", format!("reference decoder rejects the serializer's bytes: {e:?}"))
+                .with(detail(&sub, &v, vec![("bytes", bytes_js(&bytes)), ("target_block_size", Js::Str(format!("{tbs:?}")))])));
+        }
+    }
     Ok(())
 }
 
@@ -99,6 +159,7 @@ pub fn dispatch(campaign: &str, c: &mut Choices, log: &mut CaseLog) -> Option<Ca
     match campaign {
         "forward" => Some(case_forward(c, log)),
         "reverse" => Some(case_reverse(c, log)),
+        "serde_writer" => Some(case_serde_writer(c, log)),
         _ => None,
     }
 }
@@ -116,6 +177,7 @@ pub fn run(mut chk: Check) -> ! {
     let n = chk.scale(4000, 300_000);
     chk.campaign(CampaignCfg::new("forward", n), case_forward);
     chk.campaign(CampaignCfg::new("reverse", n), case_reverse);
+    chk.campaign(CampaignCfg::new("serde_writer", n / 2), case_serde_writer);
     chk.require_label("reverse:multi_block", "reverse:case", 5.0);
     chk.require_label("reverse:negative_count", "reverse:case", 5.0);
     chk.finish()
